@@ -73,6 +73,11 @@ CHECKS = {
    text="Literal values enumerated from generated alias programs are tested with `='t`, `=('t)x` and through a generic identity; accepted => inhabits the type as written; compile-time type contained in the target => accepted. Every program runs directly, tree-shaken, merged after 0-4 unrelated corpus programs and in a REPL session with aliases on an earlier line; the verdict vectors must agree. One defect class (recursive partials) is a known finding.",
    design="§3 C08",
    note="Function/process/resource types are not generated here; wider-static-type rejections are allowed (documented carve-out)."),
+ "C01": dict(
+   technique="runtime monitoring: every accepted program of the workload is executed on the real worker under three monitors — VM-level failure in any process (stuck), produced value vs the compiler's inferred result type (walk over the real type registry), and an independent reference evaluator that reports dynamic type errors",
+   text="Workload: repository corpus (tests, docs, std), acceptance-boundary mutations of it, generated programs (C02 generator, plain and nil-binder variants), generated programs pushed across the acceptance boundary by an ill-typing mutator (int<->bin, value->nil, scalar->tuple/string/union block, step boundary->chain), and process programs from the scenario generator. Rejected programs are counted; accepted ones must not get stuck, must produce values of the inferred type, and must not be ill-typed under the reference evaluator.",
+   design="§3 C01",
+   note="Three recorded type holes (tail-call argument unchecked; bare binder of nil typed non-nil; failed mid-chain match keeps its narrowing) are attributed by the trigger event observed in the same run, never in the plain generated family."),
  "C02": dict(
    technique="runtime monitoring: differential oracle — every executed program is also evaluated by an independent reference evaluator of docs/spec.md (harness/vh/src/refsem.rs) and the normalised results compared",
    text="Workload: the repository's own test and docs programs, perturbed copies of them (literals, branch order, =>/, swaps), and programs from a typed generator aimed at stack/locals bookkeeping (partially failing patterns mid-chain, bindings in branches that fall through, multi-step consequences, ~ at depth, spreads, closures, $, tail calls from nested blocks, string holes). Compiled through the real compiler and run on the real worker; value and error-vs-value must equal the reference evaluator's.",
